@@ -57,8 +57,8 @@ func (*sconn) Close() error                             { return nil }
 func (*sconn) Begin() (driver.Tx, error)                { return nil, errors.New("no tx") }
 func (*sconn) CheckNamedValue(*driver.NamedValue) error { return nil }
 
-var reFrom = regexp.MustCompile(`\(timestamp_ns\) >= \((-?\d+)\)`)
-var reTo = regexp.MustCompile(`\(timestamp_ns\) < \((-?\d+)\)`)
+var reFrom = regexp.MustCompile(`\(timestamp_ns\) >=? \((-?\d+)\)`)
+var reTo = regexp.MustCompile(`\(timestamp_ns\) <=? \((-?\d+)\)`)
 
 func (*sconn) QueryContext(ctx context.Context, q string, args []driver.NamedValue) (driver.Rows, error) {
 	svcMtx.Lock()
